@@ -30,10 +30,18 @@ type HistCfg struct {
 	Buffered bool  `json:"buffered"` // consumers keep the default output buffering
 	Restart  bool  `json:"restart"`  // after the history: graceful Exit, restart, then drain (C05)
 	Trace    bool  `json:"trace,omitempty"`
+	// Pre: events applied before the explored history (the search then starts from a
+	// non-initial state: consumers subscribed and ready, a second channel, a backlog ...);
+	// they do not count towards the depth. MaxMsgs counts publishes of the explored part only.
+	Pre []string `json:"pre,omitempty"`
 }
 
 func (c HistCfg) String() string {
-	return fmt.Sprintf("memq%d/file%d/msgs%d/ch%d/co%d/adm%v/buf%v/rst%v", c.MemQ, c.MaxBytes, c.MaxMsgs, c.Chans, c.Cons, c.Admin, c.Buffered, c.Restart)
+	s := fmt.Sprintf("memq%d/file%d/msgs%d/ch%d/co%d/adm%v/buf%v/rst%v", c.MemQ, c.MaxBytes, c.MaxMsgs, c.Chans, c.Cons, c.Admin, c.Buffered, c.Restart)
+	if len(c.Pre) > 0 {
+		s += "/pre=" + strings.Join(c.Pre, ",")
+	}
+	return s
 }
 
 type HistRes struct {
@@ -114,6 +122,7 @@ type hworld struct {
 	draining bool
 	topicSeen bool
 	restarts  int
+	preN      int // publishes made by the preamble (HistCfg.Pre)
 }
 
 func (h *hworld) bad(clause, format string, a ...interface{}) {
@@ -157,9 +166,9 @@ func (h *hworld) consNames() []string {
 // Menu lists the events enabled in the current state (a small finite alphabet).
 func (h *hworld) Menu() []string {
 	var m []string
-	if h.pubN < h.cfg.MaxMsgs {
+	if h.pubN-h.preN < h.cfg.MaxMsgs {
 		m = append(m, "pub", "hpub", "dpub")
-		if h.pubN+2 <= h.cfg.MaxMsgs {
+		if h.pubN-h.preN+2 <= h.cfg.MaxMsgs {
 			m = append(m, "mpub", "hmpub")
 		}
 	}
@@ -1091,6 +1100,10 @@ func RunHist(cfg HistCfg, hist []string, drain bool) HistRes {
 		return HistRes{Viol: []vx.Found{{Sig: "INFRA world setup failed :: hist", Detail: e}}}
 	}
 	defer func() { h.w.Release() }()
+	for _, ev := range cfg.Pre {
+		h.Apply(ev)
+	}
+	h.preN = h.pubN
 	for _, ev := range hist {
 		h.Apply(ev)
 	}
